@@ -385,6 +385,13 @@ func runGenerated(c *vlib.Check, bins map[string]string, vs []vlib.Variant, sche
 			if !p.Died {
 				res = call(ur.C07Cmd{ID: id + "-sentinel", Mode: "seq", Procs: 1, Reqs: sreqs, Hists: sseq})
 				report("sentinel-seq", sreqs, res)
+				if res != nil {
+					for i, a := range res.Alone { // non-vacuity: the sentinel really is the error of the answer, at the named path
+						if !strings.Contains(a.Body, `"message":"E:sentinel"`) || !strings.Contains(a.Body, `"code":"NOT_FOUND"`) {
+							vlib.Infra("vacuous: probe %s answers the sentinel request %s without the sentinel error: %s", id, sreqs[i].Query, trunc(a.Body, 300))
+						}
+					}
+				}
 				n := 0
 				if res != nil {
 					n += res.Requests
